@@ -56,12 +56,12 @@ pub fn orders(state: State) -> Vec<(&'static str, Vec<Action>)> {
     v
 }
 
-fn frame(v: &Value) -> Vec<u8> {
+pub fn frame(v: &Value) -> Vec<u8> {
     let body = v.to_string();
     format!("Content-Length: {}\r\n\r\n{}", body.len(), body).into_bytes()
 }
 
-fn read_frames<R: Read + Send + 'static>(r: R) -> std::sync::mpsc::Receiver<Value> {
+pub fn read_frames<R: Read + Send + 'static>(r: R) -> std::sync::mpsc::Receiver<Value> {
     let (tx, rx) = std::sync::mpsc::channel();
     std::thread::spawn(move || {
         let mut r = BufReader::new(r);
@@ -115,7 +115,7 @@ impl Outcome {
     }
 }
 
-fn wait_for(rx: &std::sync::mpsc::Receiver<Value>, pred: impl Fn(&Value) -> bool, ms: u64) -> bool {
+pub fn wait_for(rx: &std::sync::mpsc::Receiver<Value>, pred: impl Fn(&Value) -> bool, ms: u64) -> bool {
     let deadline = Instant::now() + Duration::from_millis(ms);
     loop {
         let left = deadline.saturating_duration_since(Instant::now());
